@@ -68,6 +68,10 @@ def run(pid):
     wd = workdir(pid)
     v = Verdict(pid)
     build_harness("release")
+    # ---- for every total, capacity, chunking and failing call: IoFaultsProofs.tla (the flushed routine reports success only when every
+    # byte was delivered), checked by the TLA+ proof system; TLC explores IoFaults for small totals below
+    proof = tlaps_proof(wd, "IoFaultsProofs", ["IoFaults"], "Spec => []SuccessMeansDelivered for every Total, Cap, Chunks, MaxFail (explicit flush)")
+    log("[%s] TLAPS: IoFaultsProofs.tla, %d obligations proved (unbounded)" % (pid, proof["obligations_proved"]))
     # ---- (B) model: buffered writer that is flushed vs dropped
     states = trans = 0
     for name, defects, expect_fail in (("MCIO", [], False), ("NVIO", ["drop_without_flush"], True)):
@@ -124,7 +128,7 @@ CHECK_DEADLOCK FALSE
             v.violation(sig, "rule %s fails: %s (reference at its scenario event)" % (rule, json.dumps(e)), {"trace": tp, "event": e})
     rc = v.finish()
     write_evidence(pid, "fault_enumeration", {
-        "evaluations": runs, "distinct_nontrivial": len(distinct),
+        "unbounded_proof": proof, "evaluations": runs, "distinct_nontrivial": len(distinct),
         "rule": "per scenario the fault-free run counts the underlying calls N (writes, flushes, seeks; reads for the read scenarios); then every "
                 "n in 1..N x {permanent, transient, short count, Interrupted} is run - each (scenario, n, mode) is distinct and non-trivial "
                 "because the fault lands on a call the fault-free run really makes; TLC judges each run against IoFaults' Return rule",
